@@ -103,7 +103,11 @@ func frameSig(stack string) string {
 func (r *R) Sim(cfg simrt.Config, report bool, root func()) simrt.Result {
 	var res simrt.Result
 	cfg.TraceFull = r.TraceFull
-	func() {
+	// Each simulation runs in a subtest of its own: when the race detector reports something inside the bubble,
+	// testing marks the bubble's T failed and synctest.Test calls FailNow on its parent - that must end only
+	// this subtest, not the worker's loop over seeds.
+	var escaped any
+	r.T.Run("sim", func(t2 *testing.T) {
 		defer func() {
 			if p := recover(); p != nil {
 				msg := fmt.Sprint(p)
@@ -113,13 +117,16 @@ func (r *R) Sim(cfg simrt.Config, report bool, root func()) simrt.Result {
 					// abandoned; the verdict was taken before.
 					return
 				}
-				panic(p)
+				escaped = p
 			}
 		}()
-		synctest.Test(r.T, func(t *testing.T) {
+		synctest.Test(t2, func(t *testing.T) {
 			res = simrt.Run(r.Tape, cfg, root)
 		})
-	}()
+	})
+	if escaped != nil {
+		panic(escaped)
+	}
 	r.sims = append(r.sims, res)
 	if report {
 		r.ReportInfra(res)
@@ -387,6 +394,9 @@ type ReplayFile struct {
 	Verdict Violation      `json:"verdict"`
 	Min     *MinInfo       `json:"minimised_from,omitempty"`
 	Sample  any            `json:"workload_sample,omitempty"`
+	// FromSeed: the run is regenerated from its seed (verdicts taken from a worker's stderr - data race reports,
+	// runtime fatal errors - have no recorded tape)
+	FromSeed bool `json:"from_seed,omitempty"`
 }
 
 func readReplay(path string) ReplayFile {
@@ -411,7 +421,12 @@ func replay(t *testing.T, a WorkerArgs) {
 		os.Exit(2)
 	}
 	wd := watchdog(rf.Prop, rf.Seed, 300*time.Second)
-	_, rr := execRun(t, p, rf.Tier, rf.Seed, simrt.ReplayTape(rf.Tape), a.Trace, rf.Mode)
+	tape := simrt.ReplayTape(rf.Tape)
+	if rf.FromSeed {
+		tape = simrt.NewTape(rf.Seed)
+	}
+	fmt.Fprintf(os.Stderr, "BEGIN property=%s seed=%d\n", rf.Prop, rf.Seed)
+	_, rr := execRun(t, p, rf.Tier, rf.Seed, tape, a.Trace, rf.Mode)
 	wd.Stop()
 	out := os.Stdout
 	if a.Out != "" {
